@@ -473,8 +473,12 @@ fFwd == <<36, 70, 111, 114, 119, 97, 114, 100, 101, 100>>   \* $Forwarded
 fKw == <<77, 121, 75, 119>>                          \* MyKw
 fKw2 == <<120, 45, 49>>                              \* x-1
 fExt == <<92, 88, 102, 111, 111>>                    \* \Xfoo
+\* keywords spelled like system flags, without the backslash: they are keywords (KEYWORD Seen is not SEEN)
+fKwSeen == <<83, 101, 101, 110>>                     \* Seen
+fKwDeleted == <<100, 101, 108, 101, 116, 101, 100>>  \* deleted
+fKwRecent == <<82, 69, 67, 69, 78, 84>>              \* RECENT
 FlagLists == << <<>>, <<fSeen>>, <<fSeen, fDeleted>>, <<fKw>>, <<fSeenOdd, fFwd, fKw2>>,
-                <<fAnswered, fFlagged, fDraft, fExt>>, <<fKw, fKw>> >>
+                <<fAnswered, fFlagged, fDraft, fExt>>, <<fKw, fKw>>, <<fKwSeen, fSeen, fKwDeleted>> >>
 
 (* number sets *)
 SeqSets == << <<<<1, 1>>>>, <<<<1, 3>>>>, <<<<1, 1>>, <<3, 3>>, <<5, 5>>>>, <<<<2, 0>>>>, <<<<0, 0>>>>,
@@ -574,6 +578,8 @@ BaseCrit ==
      [EC EXCEPT !.flag = <<fRecent>>, !.notflag = <<fSeen>>],              \* what NEW means
      [EC EXCEPT !.notflag = <<fRecent>>],
      [EC EXCEPT !.flag = <<fKw, fFwd>>, !.notflag = <<fKw2, fSeenOdd>>],
+     [EC EXCEPT !.flag = <<fKwSeen, fKwRecent>>, !.notflag = <<fKwDeleted>>],
+     [EC EXCEPT !.flag = <<fKwDeleted, fSeen>>, !.notflag = <<fKwSeen>>],
      [EC EXCEPT !.larger = 1],
      [EC EXCEPT !.smaller = 4096],
      [EC EXCEPT !.larger = 100, !.smaller = 2000000001],
